@@ -2122,6 +2122,15 @@ func (m *Machine) copyOp(dst, src Value) Value {
 				return smt.BVC(64, uint64(dn))
 			}
 		}
+		// a shorter source of known length: the head of the destination is overwritten, its tail stays
+		if sn >= 0 && dn > sn && d.Off == 0 {
+			if _, whole := d.Arr.V.(*OpaqueBytes); whole || func() bool { av, ok := d.Arr.V.(*ArrayV); return ok && len(av.E) == dn }() {
+				old := m.bytesToString(d)
+				nt := smt.StrConcat(stt, smt.StrSubstr(old, smt.IntC(int64(sn)), smt.IntC(int64(dn-sn))))
+				m.writeBack(d.Arr, &OpaqueBytes{T: nt, N: dn})
+				return smt.BVC(64, uint64(sn))
+			}
+		}
 		panic(unsupported(fmt.Sprintf("copy between opaque byte sequences of different/unknown length (%d -> %d)", sn, dn)))
 	}
 	n := min(d.Len, s.Len)
